@@ -68,12 +68,13 @@ def _generate_field_validator(
     elif (
         type_def.kind == "or"
         and len(type_def.items) == 2
-        and sorted(i.name for i in type_def.items if i.kind == "base")
-        in (["integer", "null"], ["null", "uinteger"])
+        and all(i.kind == "base" for i in type_def.items)
+        and [i.name for i in type_def.items].count("null") == 1
     ):
-        # `integer | null` and `uinteger | null` are range checked like `integer`.
-        number = [i for i in type_def.items if i.name != "null"][0]
-        return _generate_field_validator(number, True)
+        # `integer | null` is range checked like `integer`, `string | null` is a
+        # string when it is not null, ...
+        base = [i for i in type_def.items if i.name != "null"][0]
+        return _generate_field_validator(base, True)
     elif (
         type_def.kind == "or"
         and len(type_def.items) == 2
